@@ -781,7 +781,21 @@ func (f *Frame) selectHook(bi *BInfo, x *ssa.Select, idx string) {
 		g.setArr(st, ctxDoneArr, "Bool", sto(done, "0", sOr(sel(done, "0"), sEq(idx, fmt.Sprint(doneIdx)))))
 	}
 }
-func (f *Frame) sendHook(bi *BInfo, x *ssa.Send)                 {}
+func (f *Frame) sendHook(bi *BInfo, x *ssa.Send) { f.blockingHook(bi) }
+
+// blockingHook: a channel receive, a channel send or a sleep may wait for an unbounded time, during
+// which the context can be cancelled: what was learnt about the context before is stale.
+// (Mutex operations are not treated as waits: critical sections of the code base are short and
+// the hand-out itself takes the queue lock.)
+func (f *Frame) blockingHook(bi *BInfo) {
+	g := f.g
+	st := bi.out
+	if st == nil {
+		return
+	}
+	fresh := g.arr(st, ctxFreshArr, "Bool")
+	g.setArr(st, ctxFreshArr, "Bool", sto(fresh, "0", "false"))
+}
 
 // funcValueHook: a call through a function-typed struct field that has a `func Type.field`
 // contract (funcspec).
